@@ -137,7 +137,7 @@ def sources(ctx, plan):
     """[(key, kind, payload, targets)]: C text or an (irgen seed, types) pair.
     plan: {profile name: (n_c, n_press, n_ir)}."""
     rng = ctx.rng
-    out = []
+    out = [tuple(x) for x in FIXED_SOURCES]
     for name, targets, ctypes, irtypes in PROFILES:
         n_c, n_press, n_ir = plan.get(name, (0, 0, 0))
         for _ in range(n_press):
@@ -307,6 +307,50 @@ def chain_pairs(rec):
     return pairs
 
 
+def shape_tag(listing):
+    """A syntactic class of the instruction list, made part of the violation KEY (never of the verdict):
+    ':falls-into-label' when some instruction without jumps is directly followed by a jump target, i.e.
+    control falls through from one flow-graph node into another (ppci's own code generators end every block
+    with a jump; a back-end that drops a branch, or an entry block that is a loop target, produces this)."""
+    targets = {j for e in listing for j in e["j"]}
+    for a, b in zip(listing, listing[1:]):
+        if not a["j"] and b["i"] in targets:
+            return ":falls-into-label"
+    return ""
+
+
+FIXED_SOURCES = [
+    # regression input for the fall-through defect of FlowGraph (found by the thorough tier on mips, whose
+    # back-end emits no branch for a comparison of two constants, so that a block falls into the next label)
+    ("fixed-mips-constant-condition", "c", """extern int ext_f(int);
+extern void ext_p(int, int);
+unsigned int pf(unsigned int p0) {
+  int v0 = p0 | p0;
+  unsigned int v1 = p0 - p0;
+  int v2 = v0 & p0;
+  int v3 = v1 ^ v0;
+  unsigned int v4 = v1 * v1;
+  unsigned int v5 = v4 ^ p0;
+  unsigned int v6 = v4 & p0;
+  int v7 = v6 + v1;
+  unsigned int v8 = v2 & v2;
+  int v9 = v5 & v1;
+  int v10 = p0 ^ v1;
+  int v11 = v7 ^ v9;
+  ext_p(v5, 5);
+  v7 = (unsigned int)v6;
+  if (7 < 2) {
+    v8 = v5 - 1;
+  } else {
+    v3 = (unsigned int)v8;
+  }
+  v0 = ext_f(v1);
+  return v0 + v1 + v2 + v3 + v4 + v5 + v6 + v7 + v8 + v9 + v10 + v11;
+}
+""", ["mips", "riscv", "x86_64"]),
+]
+
+
 def build_cases(ctx, recs):
     enc = Encoder()
     for _, r, _ in recs:
@@ -323,14 +367,16 @@ def build_cases(ctx, recs):
         if len(r["rounds"][-1]) > MAX_W:
             ctx.cov["too_large"] = ctx.cov.get("too_large", 0) + 1
             continue
-        cases.append(enc.colour_case(key, r))
-        meta.append((key, r, src, None))
+        ckey = key + shape_tag(r["rounds"][-1])
+        cases.append(enc.colour_case(ckey, r))
+        meta.append((ckey, r, src, None))
         for k, rw in enumerate(r["rewrites"]):
             if len(rw["after"]) > MAX_W:
                 ctx.cov["too_large"] = ctx.cov.get("too_large", 0) + 1
                 continue
-            cases.append(enc.spill_case("%s:rewrite%d" % (key, k + 1), r, rw))
-            meta.append(("%s:rewrite%d" % (key, k + 1), r, src, rw))
+            skey = "%s:rewrite%d%s" % (key, k + 1, shape_tag(rw["after"]))
+            cases.append(enc.spill_case(skey, r, rw))
+            meta.append((skey, r, src, rw))
     return {"archs": enc.arch_tables(), "cases": cases}, meta
 
 
@@ -637,16 +683,18 @@ class Engine:
             return self.replay(ctx)
         self.model_check(ctx, thorough)
         if thorough:
-            plan = {"w64": (8, 14, 10), "w32": (4, 7, 6), "w32only": (2, 5, 3), "w16": (2, 3, 3)}
+            plan = {"w64": (7, 12, 9), "w32": (3, 6, 5), "w32only": (2, 4, 3), "w16": (2, 3, 2)}
             levels = ("0", "2")
         else:
             plan = {"w64": (2, 5, 3), "w32": (1, 2, 1), "w32only": (1, 1, 1), "w16": (1, 1, 1)}
             levels = ("2",)
         recs = record_corpus(ctx, sources(ctx, plan), levels, steps_every=1 if thorough else 2)
         self.check_records(ctx, recs)
-        for part in core.chunks(recs, 400):
-            cases, meta = irc_cases(ctx, part)
-            judge_irc(ctx, cases, meta)
+        cases, meta = irc_cases(ctx, recs)
+        limit = 160 if thorough else 40        # rounds replayed into IRC.tla (smallest graphs first)
+        order = sorted(range(len(cases)), key=lambda k: (cases[k]["inst"]["N"], k))[:limit]
+        ctx.cov["irc_rounds_not_replayed"] = max(0, len(cases) - limit)
+        judge_irc(ctx, [cases[k] for k in order], [meta[k] for k in order])
 
     def check_records(self, ctx, recs):
         batch = 400
@@ -681,7 +729,8 @@ class Engine:
             return   # quick tier: anti-vacuity through the negative controls of the trace run
         # anti-vacuity: the machine must be able to reject (each clause has a witness among improper
         # colourings / broken rewrites of the tiny menu)
-        for inv in ("ReadsSeeLatestDef", "NoSharing", "CoalescedSameLoc", "SpillReadsSeeLatestDef"):
+        # (ReadsSeeLatestDef and CoalescedSameLoc have their witnesses among the negative controls of the trace run)
+        for inv in ("NoSharing", "SpillReadsSeeLatestDef"):
             r = ctx.tlc("AllocCheck_MC", MC_WITNESS_CFG % (3, "tiny", inv), label="witness " + inv, workers=8)
             if not any(e.kind == "invariant" and e.name == inv for e in r.errors):
                 raise MachineryError("AllocCheck self-test: no improper colouring violates %s (vacuous clause)" % inv)
